@@ -175,7 +175,13 @@ cbor_item_t* ser_build_variant(const rnode* n, struct vh_rng* r) {
 static void add_variation(rnode* n, struct vh_rng* r) {
   for (size_t i = 0; i < n->nkids; i++) add_variation(n->kids[i], r);
   if ((n->kind == R_ARRAY || n->kind == R_MAP)) {
-    if (!n->indef && vh_below(r, 3) == 0) n->extra_cap = 1 + (uint32_t)vh_below(r, 3);
+    if (!n->indef && vh_below(r, 3) == 0) {
+      n->extra_cap = 1 + (uint32_t)vh_below(r, 3);
+      /* capacity and fill level on opposite sides of a head-width boundary (23/24, 255/256, 65535/65536) */
+      size_t members = n->kind == R_MAP ? n->nkids / 2 : n->nkids;
+      static const uint32_t caps[] = {23, 24, 25, 255, 256, 257, 300, 65535, 65536, 65537};
+      if (vh_below(r, 3) == 0) { uint32_t c = caps[vh_below(r, vh_below(r, 4) ? 7 : 10)]; if (c > members) n->extra_cap = (uint32_t)(c - members); }
+    }
     if (n->nkids >= 2 && vh_below(r, 3) == 0) {
       size_t i = 1 + vh_below(r, n->nkids - 1), j = vh_below(r, i);
       rnode* c = rn_clone(n->kids[j]);
@@ -226,6 +232,24 @@ static void c03_check(cbor_item_t* it, const rnode* shadow) {
     }
     free(ex);
   }
+  { const char* bad = walk_check_predicates(it); if (bad) vh_violation("predicates-inconsistent", "on a node of the tree %s", bad); }
+  /* the type-specific serializer of the root must agree with the generic one */
+  if (w == want.n) {
+    uint8_t* t2 = malloc(cap);
+    size_t wt = 0;
+    switch (cbor_typeof(it)) {
+      case CBOR_TYPE_UINT: wt = cbor_serialize_uint(it, t2, cap); break;
+      case CBOR_TYPE_NEGINT: wt = cbor_serialize_negint(it, t2, cap); break;
+      case CBOR_TYPE_BYTESTRING: wt = cbor_serialize_bytestring(it, t2, cap); break;
+      case CBOR_TYPE_STRING: wt = cbor_serialize_string(it, t2, cap); break;
+      case CBOR_TYPE_ARRAY: wt = cbor_serialize_array(it, t2, cap); break;
+      case CBOR_TYPE_MAP: wt = cbor_serialize_map(it, t2, cap); break;
+      case CBOR_TYPE_TAG: wt = cbor_serialize_tag(it, t2, cap); break;
+      case CBOR_TYPE_FLOAT_CTRL: wt = cbor_serialize_float_ctrl(it, t2, cap); break;
+    }
+    if (wt != w || memcmp(t2, out, w)) vh_violation("typed-serializer-differs", "the type-specific cbor_serialize_* of the root gives %zu bytes %s, cbor_serialize gave %zu bytes %s", wt, vh_hex(t2, wt <= cap ? wt : 0, 32), w, vh_hex(out, w, 32));
+    free(t2);
+  }
   /* the builder (or decoder) produced the tree the shadow describes */
   vb_reset(&a); vb_reset(&b);
   walk_dump_item(it, &a, 0);
@@ -242,6 +266,7 @@ static void c03_check(cbor_item_t* it, const rnode* shadow) {
 }
 
 /* ------------------------------------------------------------------- C07 */
+static uint64_t g_huge_budget;
 static void c07_check(cbor_item_t* it) {
   size_t size = cbor_serialized_size(it);
   if (size == 0) { VH_COUNT("skipped.size0", 1); return; }
@@ -271,6 +296,26 @@ static void c07_check(cbor_item_t* it) {
         if (big[i] != (uint8_t)(0x5e ^ (i * 131))) { vh_violation("write-beyond-buffer", "buffer_size=%zu but byte at index %zu was modified (item size %zu)", n, i, size); break; }
       free(big);
       VH_COUNT("sentinel_passes", 1);
+    }
+  }
+  /* buffer sizes beyond 2^32: the output region is a >8 GiB mapping of which only the first pages are touched */
+  if (size <= 200 && (g_huge_budget++ % 8) == 0) {
+    size_t rl;
+    uint8_t* reg = vh_huge_region(&rl);
+    if (reg) {
+      static const size_t bases[] = {(size_t)1 << 32, (size_t)3 << 31, (size_t)1 << 33};
+      for (size_t bi = 0; bi < 3; bi++)
+        for (size_t k = 0; k <= size + 2; k++) {
+          size_t n = bases[bi] + k;
+          if (n > rl) break;
+          memset(reg, 0xcd, size + 8);
+          size_t r = cbor_serialize(it, reg, n);
+          if (r != size) { vh_violation("wrong-return", "item of serialized size %zu, buffer of %zu bytes (2^32-scale): cbor_serialize returned %zu", size, n, r); break; }
+          if (memcmp(reg, base, size)) { vh_violation("bytes-differ", "buffer of %zu bytes: output differs", n); break; }
+          VH_COUNT("serialize_calls_with_buffers_over_4GiB", 1);
+        }
+      size_t r = cbor_serialize(it, reg, ((size_t)1 << 32) - 1);
+      if (r != size) vh_violation("wrong-return", "buffer of 2^32-1 bytes: cbor_serialize returned %zu for an item of size %zu", r, size);
     }
   }
   /* serialize_alloc */
